@@ -204,6 +204,8 @@ def explore(run_fn, max_preemptions=2, max_schedules=400, rng=None,
             break
         # random schedule: a long random prefix
         names = sorted({n for o in seen_orders for n in o})
+        if not names:
+            break       # no request ever reached the database: one schedule
         prefix = tuple(rng.choice(names) for _ in range(40))
         result = run_fn(prefix)
         order = tuple(c for c, _ in result['trace'])
